@@ -1,6 +1,6 @@
 """C01 -- trash-put conserves data: each argument ends fully trashed or untouched."""
 from .common import *  # noqa
-from .putroles import PutRoles, is_left_test
+from .putroles import PutRoles, is_left_test, either_rets, fails_closed, precedes
 from .. import prims
 
 EXPLANATION = (
@@ -28,6 +28,13 @@ MINIMUM = {'R01.1': 2, 'R01.2': 6, 'R01.3': 1, 'R01.4': 4, 'R01.5': 1, 'R01.6': 
 ALLOWED_KINDS = {'CREATE_DIR', 'OPEN_FD', 'WRITE', 'CLOSE', 'MOVE', 'DELETE'}
 NORMALISERS = {'os.path.normpath', 'os.path.abspath', 'posixpath.normpath'}
 
+
+# rules of sibling properties that are necessary conditions of this one too
+# (evaluated by the sibling module on the same graphs, reported under this property)
+ALSO = {'C02': {'R02.2': 'the moved entry keeps modes and mtimes when the move has to copy'},
+ 'C04': {'R04.6': 'a .trashinfo released by a process that did not reserve it leaves another '
+                  "entry's payload without info"},
+ 'C17': {'R17.3': 'a failed write/close must not leave a stray .trashinfo'}}
 
 def strips_trailing_sep(chain, term, is_arg):
     if chain & prims.TRAILING_SEP_STRIPPERS:
@@ -279,34 +286,18 @@ def failure_atomic(b, m):
 def either_rule(ctx, r):
     b, g = r.b, r.g
     # values that may be a failure object, returned into a frame that goes on to effects
-    tested = {}
-    for n in b.nodes('assume'):
-        c, pol = unwrap_not(n.data['cond'], n.data['pol'])
-        x = is_left_test(c)
-        if x is not None:
-            tested.setdefault(alt_ids(x), []).append((n, pol))
-    rets = []
-    for n in b.nodes('ret'):
-        v = n.data.get('value')
-        if v is None:
-            continue
-        fl = flat(v)
-        if any(isinstance(a, Obj) and a.cls.name == 'Left' for a in fl) and \
-                any(isinstance(a, Obj) and a.cls.name == 'Right' for a in fl) and \
-                g.dominates(r.arg_iteration, n.id):
-            rets.append(n)
+    rets = either_rets(b, r.arg_iteration)
     success_sites = []
     for n in b.nodes('new'):
         o = n.data.get('obj')
         if o is not None and is_const(strip(o.fields.get('ok', NONE)), True):
             success_sites.append(n)
+    cache = {}
     for rt in rets:
-        v = rt.data['value']
-        later = [e for e in r.muts if g.dominates(rt.id, e.id)] + \
-                [s for s in success_sites if g.dominates(rt.id, s.id)]
-        negs = [n for n, pol in tested.get(alt_ids(v), []) if not pol]
+        later = [e for e in r.muts if precedes(b, r, rt.id, e.id, cache)] + \
+                [s for s in success_sites if precedes(b, r, rt.id, s.id, cache)]
         for e in later:
-            ok = any(g.dominates(n.id, e.id) for n in negs)
+            ok = fails_closed(b, rt, e.id, cache)
             ctx.ob('R01.4', 'a possibly-failed step is tested before the next effect / '
                             'before success', ok, node=rt,
                    construct=g.n(rt.id).func, text=g.n(rt.id).src or '',
